@@ -21,6 +21,14 @@ def run(ctx):
     NUMA = [ord(c) for c in '0123456789-+.eE '] + [0x0a]
     ln = 5 if ctx.quick else 7
     tokenizer(ctx, None, ALL, f'number tokens: {ln} bytes, each free over 0-9 - + . e E, blank and LF', variants=('nocb',), partition=1, multi=[(ln, [NUMA] * ln)])
+    # reserved words followed by free bytes (tokens may touch: `true"a"`, `null[1]`), and integer spellings at the 64-bit boundaries
+    W = lambda w: [[b] for b in w]
+    multi = [(len(w) + 2, W(w) + [ANY, ANY]) for w in (b'true', b'false', b'null')]
+    DIG = [ord(c) for c in '0123456789']; NZ = [ord(c) for c in '123456789']
+    for L in ((19, 20) if ctx.quick else (18, 19, 20, 21)):
+        for neg in (False, True):
+            multi.append((L + (1 if neg else 0) + 1, ([[ord('-')]] if neg else []) + [NZ] + [DIG] * (L - 1) + [TERM]))
+    tokenizer(ctx, None, ALL, 'reserved words followed by 2 free bytes; integer spellings of 19..20 digits with every digit free', variants=('nocb',), partition=0, multi=multi)
     read_input(ctx, ['read.one_context_per_value'])
     from ..kani import kani_family
     ctx.run.bounds['from_f64'] = 'every finite f64 bit pattern'
